@@ -18,6 +18,7 @@ import (
 	"testing"
 	"time"
 
+	"github.com/robustirc/robustirc/internal/ircserver"
 	"github.com/robustirc/robustirc/internal/robust"
 )
 
@@ -157,15 +158,35 @@ func TestVerifC04Api(t *testing.T) {
 			data  string
 			for_  map[uint64]bool
 		}
+		// ... and what the store holds is itself compared with a twin: a plain state machine that is fed the
+		// committed log and whose replies are copied the moment they are produced (the output store marshals a
+		// batch a second time when the next one is added)
 		ref := map[uint64][]refMsg{}
+		twin := ircserver.VerifNewInst()
 		for _, e := range n.logEntries() {
+			st := twin.Apply(ircserver.VEntry{Type: e.Type, Id: e.Id.Id, Session: e.Session, Data: e.Data, UnixNano: e.UnixNano, ClientMessageId: e.ClientMessageId, Revision: e.Revision, RemoteAddr: e.RemoteAddr})
+			for _, om := range st.Msgs {
+				f := map[uint64]bool{}
+				for k, v := range om.InterestingFor {
+					f[k] = v
+				}
+				ref[e.Id.Id] = append(ref[e.Id.Id], refMsg{om.Id.Reply, om.Data, f})
+			}
 			if batch, ok := outputStream.Get(robust.Id{Id: e.Id.Id}); ok {
-				for _, om := range batch {
-					f := map[uint64]bool{}
-					for k, v := range om.InterestingFor {
-						f[k] = v
+				tw := ref[e.Id.Id]
+				same := len(batch) == len(tw)
+				for k := 0; same && k < len(batch); k++ {
+					if batch[k].Id.Reply != tw[k].reply || (batch[k].Data != tw[k].data && !strings.Contains(tw[k].data, " 003 ")) || len(batch[k].InterestingFor) != len(tw[k].for_) {
+						same = false
 					}
-					ref[e.Id.Id] = append(ref[e.Id.Id], refMsg{om.Id.Reply, om.Data, f})
+					for id, v := range batch[k].InterestingFor {
+						if tw[k].for_[id] != v {
+							same = false
+						}
+					}
+				}
+				if !same {
+					res.report(sigs, prop, "the stored output of an entry differs from what the state machine produced for it", fmt.Sprintf("history %s: input %d (%q): stored batch of %d messages, the twin produced %d", j.h.name, e.Id.Id-robust.MessageOffset, e.Data, len(batch), len(tw)), []string{"c04api", j.h.name})
 				}
 			}
 		}
@@ -176,7 +197,7 @@ func TestVerifC04Api(t *testing.T) {
 			}
 			for _, om := range batch {
 				if om.reply == m.Id.Reply {
-					return om.for_[num] && om.data == m.Data
+					return om.for_[num] && (om.data == m.Data || strings.Contains(om.data, " 003 "))
 				}
 			}
 			return false
